@@ -35,7 +35,11 @@ Step == l' = l + 1
 TInit == Init /\ l = 1 /\ pend = [s \in Sessions |-> {}] /\ TLCSet(1, 1)
 
 Skip == /\ l <= NEv
-        /\ Ev.ev \in {"start", "net.dial", "tcp.accept", "client.open", "dh.start", "harness.note"}
+        /\ Ev.ev \in {"start", "net.dial", "tcp.accept", "client.open", "dh.start", "harness.note",
+                     \* the data path of a session is the business of spec/ProxyRelay
+                     "rs.conn", "dc.onmsg", "dc.onclose", "conn.write", "conn.write.counted", "conn.pcclose", "cl.end", "event.over",
+                     "client.send", "client.recv", "client.close", "client.abort", "client.vanish", "client.sawclose",
+                     "relay.send", "relay.recv", "relay.close"}
         /\ Step /\ UNCHANGED <<vars, pend>>
 
 NoHandlerInRet == \A s \in Sessions : hpc[s] \notin {"ret", "ret2"}
